@@ -1,5 +1,8 @@
 """C11 -- no operation hangs: a stalled device produces a timeout error in bounded (virtual) time."""
 import io
+import os
+import shutil
+import tempfile
 
 from vlib import gen, scen, session, simdev, transports, wire
 
@@ -20,8 +23,8 @@ FLOORS = {"quick": {"stalls_reached": 5000, "timeout_args_checked": 10000, "dist
 EXHAUSTIVE = {"quick": False, "thorough": True}
 
 K = 8
-OPS = ["connect", "connect-auth", "shell", "exec_out", "streaming_shell", "root", "reboot", "list", "stat", "pull", "pull-cb", "push"]
-STALLS = ["silence", "eof", "trickle", "other-traffic", "unexpected", "partial", "data-flood"]
+OPS = ["connect", "connect-auth", "shell", "exec_out", "streaming_shell", "root", "reboot", "list", "stat", "pull", "pull-cb", "push", "push-dir"]
+STALLS = ["silence", "eof", "trickle", "other-traffic", "unexpected", "partial", "data-flood", "mute-stream"]
 TS = [None, 0, 0.5, -1, 3]
 RS = [0, 0.3, 2, -1, 10]
 XS = [None, 0, 1, 5]
@@ -116,7 +119,8 @@ def setup(impl, case):
         plan.recv_record_sizes[b"/f"] = [4000]
         plan.split_mode = "list"
         plan.split_sizes = [3000]
-        cb = scen.make_callback(impl, "ok", []) if op == "pull-cb" else None
+        cb_calls = []
+        cb = scen.make_callback(impl, "ok", cb_calls) if op == "pull-cb" else None
         dest = []
 
         def do():
@@ -124,7 +128,21 @@ def setup(impl, case):
             dest.append(b)
             o = sess.call("pull", "/f", b, progress_callback=cb, **kw)
             if o.ok:
-                o.value = b.getvalue()
+                # the progress reports belong to the result: a pull that returns normally has reported every byte
+                o.value = (b.getvalue(), list(cb_calls))
+            return o
+    elif op == "push-dir":
+        d = tempfile.mkdtemp(prefix="verif-c11-", dir=os.environ.get("VERIF_TMP", "/tmp"))
+        sess.tmpdirs = [d]
+        for nm, size in (("a", 300), ("b", 9000 if big else 10)):
+            with open(os.path.join(d, nm), "wb") as f:
+                f.write(scen.blob("c11" + nm, size))
+        sim.scripts[b"shell:mkdir /pd"] = []
+
+        def do():
+            o = sess.call("push", d, "/pd", mtime=3, **kw)
+            if o.ok:
+                o.value = sorted((bytes(p["path"]), bytes(p["data"]), p["status"]) for p in plan.pushed)
             return o
     elif op == "push":
         def do():
@@ -133,6 +151,12 @@ def setup(impl, case):
                 o.value = [(bytes(p["path"]), bytes(p["data"]), p["status"]) for p in plan.pushed]
             return o
     return sess, do, None
+
+
+def dispose(sess):
+    for d in getattr(sess, "tmpdirs", ()):
+        shutil.rmtree(d, ignore_errors=True)
+    sess.dispose()
 
 
 class Staller(object):
@@ -153,8 +177,25 @@ class Staller(object):
         sess.core.bulk_read = self.read
         if kind == "eof":
             self.core.stall = "eof"
-        self.sim.stop_after = stop + (1 if kind in ("trickle", "partial") else 0)
         self.partial_left = None
+        if kind == "mute-stream":
+            # stop = (ordinal of a stream opened during the operation, number of its packets still delivered): only that stream goes quiet,
+            # the device keeps serving the others (an operation with a nested stream must notice the one that stalls)
+            self.base = len(self.sim.all_streams)
+            orig_ready = self.sim._ready
+
+            def ready():
+                out = []
+                for q, st_ in orig_ready():
+                    if st_ is not None and st_ in self.sim.all_streams[self.base:] and self.sim.all_streams.index(st_) - self.base == stop[0] \
+                            and st_.okays_emitted + len(st_.written) + (1 if st_.dev_closed else 0) >= stop[1]:
+                        self.reached = True
+                        continue
+                    out.append((q, st_))
+                return out
+            self.sim._ready = ready
+            return
+        self.sim.stop_after = stop + (1 if kind in ("trickle", "partial") else 0)
 
     def target_stream(self):
         live = [st for st in self.sim.all_streams if st in self.sim.streams.values() and not st.dead]
@@ -162,6 +203,8 @@ class Staller(object):
 
     def read(self, numbytes, timeout):
         sim, core = self.sim, self.core
+        if self.kind == "mute-stream":
+            return self.orig(numbytes, timeout)
         stalled = sim.emitted >= sim.stop_after and not sim.wirebuf
         if self.kind == "partial":
             # packet number `stop` is cut in the middle: its first half arrives, then silence
@@ -247,6 +290,14 @@ def run_case(case):
         npk = sess.sim.emitted - e0
         ref_cmds = [p_.cmd for (s_, p_) in sess.sim.dev_log if s_ == sess.sim.sessions and p_.index is not None and p_.index >= e0]
         ref_val = ref.value if ref.ok else None
+        ref_streams = []      # per device packet of the operation: (ordinal of its stream among those the operation opened, packets of that stream before it)
+        order, seen_n = [], {}
+        for (s_, p_) in sess.sim.dev_log:
+            if s_ == sess.sim.sessions and p_.index is not None and p_.index >= e0:
+                if p_.arg1 not in order:
+                    order.append(p_.arg1)
+                ref_streams.append((order.index(p_.arg1), seen_n.get(p_.arg1, 0)))
+                seen_n[p_.arg1] = seen_n.get(p_.arg1, 0) + 1
         t_eff, r_eff, x_eff = effective(case, op)
         if not ref.ok:
             # with R <= 0 or X <= 0 the fault-free operation itself may legitimately time out (e.g. timeout_s=0 after the first chunk)
@@ -256,9 +307,11 @@ def run_case(case):
             if ref.exc_name() not in ("AdbTimeoutError", "TcpTimeoutException"):
                 viol.append({"mechanism": "fault-free-failed", "detail": "%s with (T,R,X)=(%r,%r,%r) against a cooperating device raised %s" % (op, case["T"], case["R"], case["X"], ref.brief(150))})
     finally:
-        sess.dispose()
+        dispose(sess)
     for j in range(npk):
         for kind in STALLS:
+            if kind == "mute-stream" and (len(set(o_ for (o_, _) in ref_streams)) < 2 or op.startswith("connect") or j >= len(ref_streams)):
+                continue          # with a single stream this is the same as silence
             if kind == "data-flood":
                 # endless WRTEs on the operation's own stream are a stall where the operation waits for something else: the OKAY of
                 # one of its own WRTEs, or the CLSE that answers its own CLSE (sync operations); for shell-like commands, which
@@ -271,10 +324,12 @@ def run_case(case):
                     continue
                 if not shellish and awaited not in ("OKAY", "CLSE"):
                     continue
+                if op == "push-dir" and j < len(ref_streams) and ref_streams[j][0] == 0:
+                    continue      # the mkdir shell of a directory push has no whole-command limit: endless output there is progress
             sess, do, _ = setup(impl, case)
             try:
                 e0 = 0 if op.startswith("connect") else sess.sim.emitted
-                st = Staller(sess, e0 + j, kind, t_eff, r_eff)
+                st = Staller(sess, ref_streams[j] if kind == "mute-stream" else e0 + j, kind, t_eff, r_eff)
                 nreads = len(sess.core.read_timeouts)
                 t0 = sess.clock.now()
                 out = do()
@@ -317,8 +372,10 @@ def run_case(case):
                         viol.append({"mechanism": "timeout-arg", "detail": "%s: a transport call got timeout %r > effective read limit %r" % (where, t, lim)})
                         break
                 sigs.append("%s|%s|%d|%s|%r|%r|%r" % (op, impl, j, kind, case["T"], case["R"], case["X"]))
+                if kind == "mute-stream":
+                    stats["single_stream_stalls"] = stats.get("single_stream_stalls", 0) + 1
             finally:
-                sess.dispose()
+                dispose(sess)
             if len(viol) > 6:
                 break
     stats["exceptions"] = exc_hist
